@@ -88,6 +88,7 @@ func (s *scheduler) threadExit(me int) {
 
 // runInterleaved runs the ops as threads under the schedule drawn from x; returns their results.
 func runInterleaved(x *explore.C, ops []Op, scratch string) []string {
+	resetFileSeq()
 	s := &scheduler{x: x, finish: make(chan struct{}), horizon: 5000000}
 	for i := range ops {
 		s.threads = append(s.threads, &thread{id: i, resume: make(chan struct{}, 1)})
